@@ -101,12 +101,15 @@ def _worker(task):
 
 
 def check(report, contract, cases, procs=None, limit_quick_s=60, limit_thorough_s=600,
-          exhaustive=None):
+          exhaustive=None, warm_engine=False):
   tier = common.tier()
   procs = procs or min(16, os.cpu_count() or 4)
   key = contract.name
   _REG[key] = (contract, cases)
   limit = limit_quick_s if tier == "quick" else limit_thorough_s
+  if warm_engine:         # pay the engine's import cost (astroid etc.) once, before forking
+    from . import eng
+    eng.new_engine()
   tasks = [(key, w, procs, tier, common.seed(), limit) for w in range(procs)]
   with mp.get_context("fork").Pool(procs) as pool:
     outs = pool.map(_worker, tasks)
